@@ -186,6 +186,50 @@ def group_variants(summ):
     return out
 
 
+def sender_layout(ctx, f, summ, want, rule='R1', size_rule='R2'):
+    """Compare every packet variant a sender produces (port, channel, struct format, field expressions per guard) with the firmware layout
+    table.  Shared with C17 (the motion primitives are streamed through Commander.send_hover_setpoint / the high-level commander)."""
+    n_variants = 0
+    variants = group_variants(summ)
+    got_pk = [(k, g) for k, g in variants if k]
+    used = set()
+    for k, g in got_pk:
+        ctx.need(len(k) == 1, '%s transmits %d packets on one path' % (f.qualname, len(k)))
+        port, chan, fmt, fields = k[0] if k[0] != ('?',) else (None, None, '?', ())
+        cand = [i for i, w in enumerate(want) if (w['guard'] == g or w['guard'] == ['*'])]
+        n_variants += 1
+        if not cand:
+            ctx.inst(rule, f, 'variant:' + ','.join(g), False,
+                     'packet sent under guard %s is not in the firmware layout table (known guards: %s)' % (g, [w['guard'] for w in want]))
+            continue
+        w = want[cand[0]]
+        used.add(cand[0])
+        gk = ','.join(g) or 'always'
+        ctx.inst(rule, f, 'port/channel[%s]' % gk, (port, chan) == (w['port'], w['channel']),
+                 'sent on port %s channel %s, firmware expects port %s channel %s (%s)' % (port, chan, w['port'], w['channel'], w['src']))
+        ctx.inst(rule, f, 'format[%s]' % gk, fmt == w['fmt'], 'struct format %r, firmware layout %r (%s)' % (fmt, w['fmt'], w['src']))
+        ctx.inst(rule, f, 'fields[%s]' % gk, list(fields) == w['fields'],
+                 'field expressions %s, firmware expects %s (%s)' % (list(fields), w['fields'], w['src']))
+        size = fmt_size(fmt, fields)
+        ctx.inst(size_rule, f, 'size[%s]' % gk, size is not None and size <= 30, 'payload is %s bytes (limit 30)' % size)
+    for i, w in enumerate(want):
+        if i not in used and w.get('port') is not None:
+            ctx.inst(rule, f, 'variant-missing:' + ','.join(w['guard']), False,
+                     'firmware layout variant under guard %s (%s) is never produced' % (w['guard'], w['src']))
+    return n_variants
+
+
+def sender_layout_for(ctx, keys, rule, size_rule=None):
+    """sender_layout for the named senders ('path:Class.func' keys of the firmware layout table)."""
+    for key in keys:
+        path, qual = key.split(':')
+        f = ctx.model.func(path, qual)
+        summ, _ = summarise_scoped(ctx.model, f)
+        ctx.need(key in FW.LAYOUT, 'no firmware layout entry for %s' % key)
+        ctx.touch(f)
+        sender_layout(ctx, f, summ, FW.LAYOUT[key], rule, size_rule or rule)
+
+
 def check(ctx):
     m = ctx.model
     oracle = FW.LAYOUT
@@ -217,36 +261,7 @@ def check(ctx):
             ctx.touch(f)
             if key not in oracle:
                 continue
-            variants = group_variants(summ)
-            want = oracle[key]
-            wild = [w for w in want if w['guard'] == ['*']]
-            got_pk = [(k, g) for k, g in variants if k]
-            used = set()
-            for k, g in got_pk:
-                ctx.need(len(k) == 1, '%s transmits %d packets on one path' % (f.qualname, len(k)))
-                port, chan, fmt, fields = k[0] if k[0] != ('?',) else (None, None, '?', ())
-                cand = [i for i, w in enumerate(want) if (w['guard'] == g or w['guard'] == ['*'])]
-                n_variants += 1
-                if not cand:
-                    ctx.inst('R1', f, 'variant:' + ','.join(g), False,
-                             'packet sent under guard %s is not in the firmware layout table (known guards: %s)' % (g, [w['guard'] for w in want]))
-                    continue
-                w = want[cand[0]]
-                used.add(cand[0])
-                gk = ','.join(g) or 'always'
-                ctx.inst('R1', f, 'port/channel[%s]' % gk, (port, chan) == (w['port'], w['channel']),
-                         'sent on port %s channel %s, firmware expects port %s channel %s (%s)' % (port, chan, w['port'], w['channel'], w['src']))
-                ctx.inst('R1', f, 'format[%s]' % gk, fmt == w['fmt'], 'struct format %r, firmware layout %r (%s)' % (fmt, w['fmt'], w['src']))
-                ctx.inst('R1', f, 'fields[%s]' % gk, list(fields) == w['fields'],
-                         'field expressions %s, firmware expects %s (%s)' % (list(fields), w['fields'], w['src']))
-                # R2: size
-                size = fmt_size(fmt, fields)
-                ctx.inst('R2', f, 'size[%s]' % gk, size is not None and size <= 30, 'payload is %s bytes (limit 30)' % size)
-            for i, w in enumerate(want):
-                if i not in used and w.get('port') is not None:
-                    ctx.inst('R1', f, 'variant-missing:' + ','.join(w['guard']), False,
-                             'firmware layout variant under guard %s (%s) is never produced' % (w['guard'], w['src']))
-            del wild
+            n_variants += sender_layout(ctx, f, summ, oracle[key])
     # ---- R2b: sender inventory -----------------------------------------------
     missing = sorted(set(oracle) - found_senders)
     extra = sorted(found_senders - set(oracle))
